@@ -257,6 +257,24 @@ func (s *c13Sink) Sync() error {
 	return nil
 }
 
+// c13FlushWriter has no Sync but other life-cycle methods that a too helpful wrapper might want to call.
+type c13FlushWriter struct {
+	s                      *c13Sink
+	fail                   bool
+	flushes, closes, stops int
+}
+
+func (w *c13FlushWriter) Write(p []byte) (int, error) { return w.s.Write(p) }
+func (w *c13FlushWriter) Flush() error {
+	w.flushes++
+	if w.fail {
+		return fmt.Errorf("flush failed")
+	}
+	return nil
+}
+func (w *c13FlushWriter) Close() error { w.closes++; return nil }
+func (w *c13FlushWriter) Stop() error  { w.stops++; return nil }
+
 // plainWriter has no Sync method.
 type plainWriter struct{ s *c13Sink }
 
@@ -542,6 +560,16 @@ func propC13Wrappers(t *rapid.T) {
 	if err := aw.Sync(); err != nil || s2.syncs != 0 {
 		t.Fatalf("AddSync's added Sync must be a no-op returning nil: %v (inner syncs %d)", err, s2.syncs)
 	}
+	// ... whatever ELSE the writer can do: a writer with a Flush, Close or Stop of its own (bufio, gzip, tabwriter
+	// shapes) is not touched by the added Sync
+	fw := &c13FlushWriter{s: &c13Sink{name: "fw", outs: []c13Outcome{o}}, fail: o.Sync}
+	afw := zapcore.AddSync(fw)
+	if _, err := c13WriteVia(route, afw, p); (err != nil) != (werr != nil) {
+		t.Fatalf("AddSync(writer with Flush) relayed write error %v, want %v", err, werr)
+	}
+	if err := afw.Sync(); err != nil || fw.flushes+fw.closes+fw.stops != 0 {
+		t.Fatalf("AddSync's added Sync must be a no-op returning nil: got %v and called Flush %d, Close %d, Stop %d times on the writer", err, fw.flushes, fw.closes, fw.stops)
+	}
 	var _ io.Writer = aw
 	// Lock relays results unchanged and does not double wrap
 	s3 := &c13Sink{name: "s3", outs: []c13Outcome{o}}
@@ -622,6 +650,17 @@ type c13ErrSink struct{ werr, serr error }
 func (e *c13ErrSink) Write(p []byte) (int, error) { return len(p), e.werr }
 func (e *c13ErrSink) Sync() error                 { return e.serr }
 
+// c13MutexSink / c13RWMutexSink: sinks with a mutex of their own for another purpose (the methods are promoted).
+type c13MutexSink struct {
+	sync.Mutex
+	*overlapSink
+}
+
+type c13RWMutexSink struct {
+	sync.RWMutex
+	*overlapSink
+}
+
 // overlapSink trips when two calls overlap.
 type overlapSink struct {
 	inUse    atomic.Int32
@@ -651,6 +690,17 @@ func propC13LockConcurrent(t *rapid.T) {
 	syncEvery := rapid.IntRange(1, 5).Draw(t, "syncEvery")
 	dumpProgram(map[string]any{"property": "C13", "goroutines": g, "ops": per, "syncEvery": syncEvery})
 	sink := &overlapSink{}
+	// the sink as zap sees it: the bare type, or a type that has Lock/Unlock/RLock methods of its OWN (promoted
+	// from an embedded mutex that guards something else, e.g. rotation) - which makes it a sync.Locker without
+	// making its Write and Sync any safer
+	var raw zapcore.WriteSyncer = sink
+	shape := rapid.SampledFrom([]string{"plain", "plain", "embeds sync.Mutex", "embeds sync.RWMutex"}).Draw(t, "sinkShape")
+	switch shape {
+	case "embeds sync.Mutex":
+		raw = &c13MutexSink{overlapSink: sink}
+	case "embeds sync.RWMutex":
+		raw = &c13RWMutexSink{overlapSink: sink}
+	}
 	// what sits between the lock and the (not thread-safe) sink: nothing, the combined-syncer constructor, or a
 	// BufferedWriteSyncer with a tiny buffer (writes larger than it go through, syncs flush): in every case all
 	// calls that reach the sink are mutually exclusive
@@ -659,17 +709,17 @@ func propC13LockConcurrent(t *rapid.T) {
 	var bws *zapcore.BufferedWriteSyncer
 	switch wrap {
 	case "direct":
-		lk = zapcore.Lock(sink)
+		lk = zapcore.Lock(raw)
 	case "combine":
-		lk = zap.CombineWriteSyncers(sink)
+		lk = zap.CombineWriteSyncers(raw)
 	case "lock(buffered)":
-		bws = &zapcore.BufferedWriteSyncer{WS: sink, Size: 2, FlushInterval: time.Hour}
+		bws = &zapcore.BufferedWriteSyncer{WS: raw, Size: 2, FlushInterval: time.Hour}
 		lk = zapcore.Lock(bws)
 	case "combine(buffered)":
-		bws = &zapcore.BufferedWriteSyncer{WS: sink, Size: 2, FlushInterval: time.Hour}
+		bws = &zapcore.BufferedWriteSyncer{WS: raw, Size: 2, FlushInterval: time.Hour}
 		lk = zap.CombineWriteSyncers(bws)
 	case "buffered(lock)":
-		bws = &zapcore.BufferedWriteSyncer{WS: zapcore.Lock(sink), Size: 2, FlushInterval: time.Hour}
+		bws = &zapcore.BufferedWriteSyncer{WS: zapcore.Lock(raw), Size: 2, FlushInterval: time.Hour}
 		lk = bws
 	}
 	var wg sync.WaitGroup
@@ -691,7 +741,7 @@ func propC13LockConcurrent(t *rapid.T) {
 		_ = bws.Stop()
 	}
 	if n := sink.overlaps.Load(); n != 0 {
-		t.Fatalf("%d overlapping Write/Sync calls reached the sink (%s)", n, wrap)
+		t.Fatalf("%d overlapping Write/Sync calls reached the sink (%s, sink %s)", n, wrap, shape)
 	}
 	if bws == nil && sink.writes.Load()+sink.syncs.Load() != int64(g*per) {
 		t.Fatalf("sink saw %d calls, want %d", sink.writes.Load()+sink.syncs.Load(), g*per)
